@@ -173,7 +173,7 @@ func NewWorld(c Cfg) (*World, error) {
 	w.hubDone = make(chan struct{})
 	go func() { w.Hub.Start(w.Ctx); close(w.hubDone) }()
 	if !c.NoHTTP {
-		web.Router = mux.NewRouter()
+		web.Router = mux.NewRouter().UseEncodedPath() // as the package initialises it
 		prefix := stringutil.MakePathPrefixer(conf.Web.BasePath)
 		webui.SetupRoutes(web.Router.PathPrefix(prefix("/serve/")).Subrouter())
 		rest.SetupRoutes(web.Router.PathPrefix(prefix("/api/")).Subrouter())
